@@ -12,7 +12,9 @@ CLAIM = {
           'writer output is the LIS-79 encoding and the reported positions are the sums of the record sizes '
           '(writer_layout), every history of read/skip/next/seek/tell on an encoded file is answered exactly as the '
           'abstract record-cursor semantics says (read_refines, seek_any_order), stripping the TIF markers gives the '
-          'unmarked file (strip_tif_encode, strip_tif_write). The model is tied to the code on every run by correspondence streams '
+          'unmarked file (strip_tif_encode, strip_tif_write); the reader handed out by '
+          'file_read_with_best_physical_record_pad_settings on an unpadded written file is the (keepGoing, pad 0) reader '
+          'and refines the same semantics (pad_tie_order, scan_counts_records, pad_reader_refines[_cond]). The model is tied to the code on every run by correspondence streams '
           '(writer bytes and tells, reader histories incl. malformed files, strip_tif) and the property is evaluated '
           'on the implementation alone against an independent Python layout and list slicing.'),
  'note': ('Trusted: Lean kernel; model<->code correspondence on the cases of the run. Reader modelled for the FileRead '
@@ -25,10 +27,15 @@ CLAIM = {
 RULE = ('files: all 8 trailer combinations x TIF off/normal/reversed in rotation, max PR length from the minimum '
         '(header+trailer+1) upward plus a few near 65535, 0-7 records of 1 byte..several PRs; per file one history of '
         '50-500 operations (read n / skip n / read rest / skip rest / skipToNextLr / seekLr(record i) / tellLr) drawn '
-        'with n around PR and record boundaries; a malformed stream (truncations, flipped header bits, wrong TIF words). '
+        'with n around PR and record boundaries; the same whole-read/history oracle through '
+        'file_read_with_best_physical_record_pad_settings(pr_limit 1/5/100/0) on unpadded files of every layout, on files '
+        'whose first k PRs end on 4-byte boundaries with a later odd one (k around pr_limit) and on padded files (null '
+        'padding to 2/4; non-null padding with TIF markers); a malformed stream (truncations, flipped header bits, wrong TIF words). '
         'A case is non-trivial when its history returns bytes of at least two records and crosses a PR boundary inside '
         'a sized read or skip; distinct by (layout, record lengths, history).')
-ASSUMPTIONS = ['io.BytesIO read/seek/tell semantics (read returns at most n bytes and advances by what it returned)',
+ASSUMPTIONS = ['padded files (outside FileWrite) are exercised only where the scan heuristic is determinate: null padding, or '
+               'non-null padding under TIF markers; non-null padding without TIF can tie with a mis-synchronised scan',
+               'io.BytesIO read/seek/tell semantics (read returns at most n bytes and advances by what it returned)',
                'reader constructed with the FileRead defaults keepGoing=False, pad_modulo=0, pad_non_null=False',
                'logical records are non-empty (the writer emits nothing for an empty record)',
                'a TIF-marked file holds at least one record; files are shorter than 2**32 - 24 bytes (32-bit TIF words)',
